@@ -487,3 +487,197 @@ func (e *env) cycleProbe(mode string) {
 		c.Violation("C20 fatal cyclic-message", fmt.Sprintf("helper process died running: %s: %v", stmt, werr), map[string]any{"statement": stmt, "output_head": driverTrunc(o)})
 	}
 }
+
+// ---------------------------------------------------------------------------------------------
+// Plain-Starlark views: element wrappers obtained from a message through dict(mapfield),
+// dict.update(mapfield), list/tuple/sorted/reversed(repeatedfield), comprehensions and loop variables
+// (and the Go accessors Items/Entries/Elements/Index/Get) must stay tied to the message's frozen
+// flag: after Freeze() no mutation through a captured element may change the message.
+
+type plainForm struct {
+	name  string
+	shape string // "view-dict-of-map" | "view-items-of-map" | "view-list-of-repeated" | "view-iteration-variable"
+	body  string // body of "def cap(m):" returning a list of element wrappers ("" = Go form)
+	goFn  func(m *sproto.Message) []starlark.Value
+}
+
+func attrOf(m *sproto.Message, name string) starlark.Value {
+	v, _ := m.Attr(name)
+	return v
+}
+
+var plainForms = []plainForm{
+	{name: "dict(map).values()", shape: "view-dict-of-map", body: "return dict(m.mv_rec).values()"},
+	{name: "dict(map)[k]", shape: "view-dict-of-map", body: "return [dict(m.mv_rec)[\"k0\"], dict(m.mv_rec)[\"k1\"]]"},
+	{name: "dict.update(map)", shape: "view-dict-of-map", body: "d = {}\n    d.update(m.mv_rec)\n    return d.values()"},
+	{name: "dict(map, **kw)", shape: "view-dict-of-map", body: "return [v for v in dict(m.mv_rec, zz = 1).values() if v != 1]"},
+	{name: "dict(map).items()", shape: "view-items-of-map", body: "return [kv[1] for kv in dict(m.mv_rec).items()]"},
+	{name: "for k, v in dict(map).items()", shape: "view-items-of-map", body: "out = []\n    for k, v in dict(m.mv_rec).items():\n        out.append(v)\n    return out"},
+	{name: "MapField.Items()", shape: "view-items-of-map", goFn: func(m *sproto.Message) []starlark.Value {
+		var out []starlark.Value
+		for _, kv := range attrOf(m, "mv_rec").(starlark.IterableMapping).Items() {
+			out = append(out, kv[1])
+		}
+		return out
+	}},
+	{name: "MapField.Entries()", shape: "view-items-of-map", goFn: func(m *sproto.Message) []starlark.Value {
+		var out []starlark.Value
+		if mf, ok := attrOf(m, "mv_rec").(*sproto.MapField); ok {
+			for _, v := range mf.Entries() {
+				out = append(out, v)
+			}
+		}
+		return out
+	}},
+	{name: "MapField.Get", shape: "view-items-of-map", goFn: func(m *sproto.Message) []starlark.Value {
+		v, _, _ := attrOf(m, "mv_rec").(starlark.Mapping).Get(starlark.String("k0"))
+		return []starlark.Value{v}
+	}},
+	{name: "for k in map: map[k]", shape: "view-iteration-variable", body: "out = []\n    for k in m.mv_rec:\n        out.append(m.mv_rec[k])\n    return out"},
+	{name: "[e for e in repeated]", shape: "view-iteration-variable", body: "return [e for e in m.r_rec]"},
+	{name: "loop variable after loop", shape: "view-iteration-variable", body: "last = None\n    for e in m.r_rec:\n        last = e\n    return [last]"},
+	{name: "enumerate/zip", shape: "view-iteration-variable", body: "return [e for i, e in enumerate(m.r_rec)] + [p[0] for p in zip(m.r_rec, m.r_rec)]"},
+	{name: "list(repeated)", shape: "view-list-of-repeated", body: "return list(m.r_rec)"},
+	{name: "tuple(repeated)", shape: "view-list-of-repeated", body: "return list(tuple(m.r_rec))"},
+	{name: "sorted(repeated)", shape: "view-list-of-repeated", body: "return sorted(m.r_rec, key = lambda e: -e.f_int32)"},
+	{name: "reversed(repeated)", shape: "view-list-of-repeated", body: "return list(reversed(m.r_rec))"},
+	{name: "repeated[i]", shape: "view-list-of-repeated", body: "return [m.r_rec[0], m.r_rec[-1]]"},
+	{name: "list + list(repeated)", shape: "view-list-of-repeated", body: "l = []\n    l.extend(m.r_rec)\n    return l + list(m.r_rec)"},
+	{name: "RepeatedField.Elements()", shape: "view-list-of-repeated", goFn: func(m *sproto.Message) []starlark.Value {
+		var out []starlark.Value
+		if rf, ok := attrOf(m, "r_rec").(*sproto.RepeatedField); ok {
+			for v := range rf.Elements() {
+				out = append(out, v)
+			}
+		}
+		return out
+	}},
+	{name: "nested: dict(map)[k].f_rec", shape: "view-dict-of-map", body: "return [v.f_rec for v in dict(m.mv_rec).values()]"},
+}
+
+const plainMutSrc = `
+def mut0(e, n): e.f_int32 = n
+def mut1(e, n): e.r_int32 = [n]
+def mut2(e, n): e.mv_int32 = {"z": n}
+def mut3(e, n): proto.set_field(e, e.descriptor.f_int32, n)
+def mut4(e, n): e.r_int32.append(n)
+def mut5(e, n): e.mv_int32["z"] = n
+def mut6(e, n): e.f_rec = {"f_int32": n}
+def mut7(e, n): e.f_rec.f_int32 = n
+def mut8(e, n): e.r_int32[0] = n
+`
+
+func (e *env) plainViewCase(fs *fileSchema, form *plainForm) {
+	c := e.c
+	F := fileVar(fs)
+	build := fmt.Sprintf(`
+def sub(n): return %[1]s.All(f_int32 = n, r_int32 = [n + 1], mv_int32 = {"a": n + 2}, f_rec = %[1]s.All(f_int32 = n + 3))
+def build(): return %[1]s.All(f_int32 = 1, f_rec = sub(10), r_rec = [sub(20), sub(30)], mv_rec = {"k0": sub(40), "k1": sub(50)})
+`, F)
+	src := build + plainMutSrc
+	if form.body != "" {
+		src += "def cap(m):\n    " + form.body + "\n"
+	}
+	g, err, p := e.exec(e.thread, src, nil)
+	if err != nil || p != nil {
+		c.Violation("C20 harness plain-view-program", fmt.Sprintf("%s: err=%v panic=%v", form.name, err, p), nil)
+		return
+	}
+	c.Cover("plain_view_forms", form.name)
+	for _, captureFirst := range []bool{true, false} {
+		for _, moduleFreeze := range []bool{false, true} {
+			where := fmt.Sprintf("%s %s capture-before-freeze=%v module-freeze=%v", fs.syntax, form.name, captureFirst, moduleFreeze)
+			c.Note("plain view %s", where)
+			mv, err, p := e.call(e.thread, g["build"])
+			if err != nil || p != nil {
+				c.Violation("C20 setup construct-valid-message", fmt.Sprintf("%s: err=%v panic=%v", where, err, p), nil)
+				return
+			}
+			m := mv.(*sproto.Message)
+			capture := func() ([]starlark.Value, bool) {
+				var elems []starlark.Value
+				if form.goFn != nil {
+					if p := sl.Safe(func() { elems = form.goFn(m) }); p != nil {
+						c.Violation("C20 panic plain-view capture", fmt.Sprintf("%s: %s", where, p.String()), map[string]any{"stack": stackTrunc(p.Stack)})
+						return nil, false
+					}
+					return elems, true
+				}
+				res, err, p := e.call(e.thread, g["cap"], m)
+				if p != nil {
+					c.Violation("C20 panic plain-view capture", fmt.Sprintf("%s: %s", where, p.String()), map[string]any{"stack": stackTrunc(p.Stack)})
+					return nil, false
+				}
+				if err != nil {
+					c.Violation("C20 harness plain-view-capture", fmt.Sprintf("%s: %v", where, err), nil)
+					return nil, false
+				}
+				it := starlark.Iterate(res)
+				if it == nil {
+					return nil, true
+				}
+				defer it.Done()
+				var x starlark.Value
+				for it.Next(&x) {
+					elems = append(elems, x)
+				}
+				return elems, true
+			}
+			var elems []starlark.Value
+			ok := true
+			if captureFirst {
+				elems, ok = capture()
+			}
+			before, _ := snapshot(m)
+			if moduleFreeze {
+				_, err, p := e.exec(e.newThread(), "g = [x]\n", starlark.StringDict{"x": m})
+				if err != nil || p != nil {
+					c.Violation("C20 harness module-freeze", fmt.Sprintf("%s: err=%v panic=%v", where, err, p), nil)
+					return
+				}
+			} else {
+				m.Freeze()
+			}
+			if !captureFirst {
+				elems, ok = capture()
+			}
+			if !ok {
+				continue
+			}
+			n := 1000
+			for ei, el := range elems {
+				if _, isMsg := el.(*sproto.Message); !isMsg {
+					continue
+				}
+				for mi := 0; mi <= 8; mi++ {
+					n++
+					_, merr, mp := e.call(e.thread, g[fmt.Sprintf("mut%d", mi)], el, starlark.MakeInt(n))
+					after, sp := snapshot(m)
+					c.Eval(1)
+					c.Count("plain_view_mutation_attempts", 1)
+					stmt := strings.TrimSpace(strings.Split(plainMutSrc, "\n")[mi+1])
+					det := map[string]any{"where": where, "capture": form.name, "element": ei, "mutation": stmt, "before": showSnap(before), "after": showSnap(after)}
+					switch {
+					case mp != nil:
+						c.Violation("C20 panic plain-view mutate", fmt.Sprintf("host panic in %q on an element captured by %s: %s", stmt, form.name, mp.String()), det)
+					case sp != nil:
+						c.Violation("C20 panic plain-view snapshot", sp.String(), det)
+					case after != before:
+						c.Count("frozen_mutations_observed", 1)
+						c.Cover("frozen_mutated_shapes", form.shape)
+						c.Violation("C20 frozen-mutated "+form.shape,
+							fmt.Sprintf("frozen message changed through an element captured by %s (%s): %q succeeded (err=%v): before %s, after %s",
+								form.name, where, stmt, merr, driverTrunc(showSnap(before)), driverTrunc(showSnap(after))), det)
+						before = after
+					case merr != nil:
+						c.Count("plain_view_frozen_rejections", 1)
+					}
+				}
+			}
+			c.Distinct("plain-view " + where)
+			if problem, _ := e.walk(m, true); problem != "" {
+				c.Violation("C20 invariant plain-view", problem+" ("+where+")", nil)
+			}
+		}
+	}
+}
